@@ -44,10 +44,11 @@ Record sp := {
   sp_sub : list (N * N);        (* packet id -> step at which it was handed to the TUN *)
   sp_tx : list (N * N * N);     (* everything sent so far, latest first *)
   sp_allowed : bool;            (* an initiation may be sent (5 s spacing) *)
-  sp_next : option N            (* index of a session the remote party initiated, not yet confirmed by its data *)
+  sp_next : option N;           (* index of a session the remote party initiated, not yet confirmed by its data *)
+  sp_cur : option N             (* index of the session established last (the one the hook VerifSetSendNonce acts on) *)
 }.
 
-Definition sp0 : sp := {| sp_keys := []; sp_sub := []; sp_tx := []; sp_allowed := true; sp_next := None |}.
+Definition sp0 : sp := {| sp_keys := []; sp_sub := []; sp_tx := []; sp_allowed := true; sp_next := None; sp_cur := None |}.
 
 (* steps in which the device runs SendStagedPackets for the peer *)
 Definition is_flush (nx : option N) (e : ev) : bool :=
@@ -97,6 +98,12 @@ Definition sp_step (i : N) (s : sp) (e : ev) (o : out) : sp * bool :=
                | _ => None
                end in
   let keys := match fresh with Some idx => (idx, i) :: sp_keys s | None => sp_keys s end in
+  (* the harness hook rewrites the counter of the current key: whatever was held because that key had run out may
+     from now on legitimately go out under it again, so the key counts as (re-)established at this step *)
+  let keys := match e, sp_cur s with
+              | SetNonce _, Some idx => (idx, i) :: keys
+              | _, _ => keys
+              end in
   (* packets the bind itself refused (Send error) are excused: they are lost by the network, not by the device *)
   let subs := match e with
               | TunBatch l | TunBatchIErr l => map (fun p => (p, i)) l ++ sp_sub s
@@ -133,7 +140,8 @@ Definition sp_step (i : N) (s : sp) (e : ev) (o : out) : sp * bool :=
     | Answer _ | RefData => None
     | _ => sp_next s
     end in
-  ({| sp_keys := keys; sp_sub := subs; sp_tx := sent; sp_allowed := allowed; sp_next := next' |},
+  let cur' := match fresh with Some idx => Some idx | None => sp_cur s end in
+  ({| sp_keys := keys; sp_sub := subs; sp_tx := sent; sp_allowed := allowed; sp_next := next'; sp_cur := cur' |},
    ok_tx && ok_complete && ok_rekey).
 
 (* first step at which the specification fails *)
